@@ -105,7 +105,11 @@ impl<R: Read> Iterator for ChunkedChars<R> {
                 // with `%`. `BufferedInput` pads the end of input with NUL characters, which the
                 // parser's directive scanner takes for directive text: it would never return.
                 // Terminate the line once, as `from_str` input ending in a line break would.
+                // The synthesized break starts a new line: if the reader delivers more text
+                // after a transient error or a size-limit refusal, a `%` there begins a
+                // directive line of its own and is terminated in turn.
                 self.in_directive_line = false;
+                self.at_line_start = true;
                 Some('\n')
             }
             None => {
